@@ -5,4 +5,5 @@ import "golang.org/x/tools/go/packages"
 // extractSites: panic-site inventory (C01) and nil-return inventory (C03).
 func extractSites(pkgs []*packages.Package, facts *Facts, leanDir string) {
 	extractPanicSites(pkgs, facts, leanDir)
+	extractNilReturns(pkgs, facts, leanDir)
 }
